@@ -171,6 +171,11 @@ def _compute_constraints_of_field_reference(expression, ir, computed=None):
         if referrent_type.has_field("size_in_bits"):
             type_size = ir_util.constant_value(referrent_type.size_in_bits)
         elif isinstance(field, ir_data.Field):
+            # The size may be a constant that is not a literal (`0 [+k]  UInt  x`
+            # with `let k = 1`); its value is only known once its own bounds
+            # have been computed, and the referenced field may come later in
+            # the traversal than this reference.
+            compute_constraints_of_expression(field.location.size, ir, computed)
             field_size = ir_util.constant_value(field.location.size)
             if field_size is None:
                 type_size = None
